@@ -765,33 +765,72 @@ Proof.
 Qed.
 
 (* the executable acceptor only says yes to accepted words *)
-Lemma acc_b_sound : forall p fuel seen pc w, acc_b p fuel seen pc w = true -> accA p [] pc w.
+(* Reach p u pc: whatever is accepted from pc, prefixed by u, is accepted from the start *)
+Definition Reach (p : prog) (u : list N) (pc : nat) : Prop :=
+  forall w, accA p [] pc w -> accA p [] (start p) (u ++ w).
+
+Lemma clos_reach : forall p u fuel work visited,
+  (forall pc, In pc work -> Reach p u pc) -> (forall pc, In pc visited -> Reach p u pc) ->
+  forall pc, In pc (clos p fuel work visited) -> Reach p u pc.
 Proof.
-  induction fuel; intros seen pc w H; simpl in H; [discriminate|].
-  destruct (get p pc) as [i|] eqn:Hg; [|discriminate].
-  destruct (op i) eqn:Ho; try discriminate.
-  - destruct (mem pc seen); [discriminate|]. apply orb_true_iff in H. destruct H as [H|H].
-    + eapply A_out; eauto. rewrite Ho. reflexivity.
-    + eapply A_arg; eauto. rewrite Ho. reflexivity.
-  - destruct (mem pc seen); [discriminate|]. apply orb_true_iff in H. destruct H as [H|H].
-    + eapply A_out; eauto. rewrite Ho. reflexivity.
-    + eapply A_arg; eauto. rewrite Ho. reflexivity.
-  - eapply A_eps; eauto. rewrite Ho. reflexivity.
-  - eapply A_eps; eauto. rewrite Ho. reflexivity.
-  - destruct w; [|discriminate]. eapply A_match; eauto.
-  - eapply A_eps; eauto. rewrite Ho. reflexivity.
-  - destruct w as [|b w]; [discriminate|]. apply andb_true_iff in H. destruct H as [M H].
-    eapply A_rune; eauto. rewrite Ho. reflexivity.
-  - destruct w as [|b w]; [discriminate|]. apply andb_true_iff in H. destruct H as [M H].
-    eapply A_rune; eauto. rewrite Ho. reflexivity.
-  - destruct w as [|b w]; [discriminate|]. apply andb_true_iff in H. destruct H as [M H].
-    eapply A_rune; eauto. rewrite Ho. reflexivity.
-  - destruct w as [|b w]; [discriminate|]. apply andb_true_iff in H. destruct H as [M H].
-    eapply A_rune; eauto. rewrite Ho. reflexivity.
+  induction fuel; intros work visited Hw Hv pc Hin; simpl in Hin; auto.
+  destruct work as [|x w]; auto.
+  destruct (mem x visited).
+  - eapply IHfuel; [| |exact Hin]; auto. intros q Hq. apply Hw. right. exact Hq.
+  - assert (Hx : Reach p u x) by (apply Hw; left; reflexivity).
+    assert (Hv' : forall q, In q (x :: visited) -> Reach p u q) by (intros q [E|E]; subst; auto).
+    assert (Hw' : forall q, In q w -> Reach p u q) by (intros q Hq; apply Hw; right; exact Hq).
+    destruct (get p x) as [i|] eqn:Hg.
+    2:{ eapply IHfuel; [| |exact Hin]; auto. }
+    assert (Eps : is_eps (op i) = true -> Reach p u (out i)).
+    { intros He w0 Hacc. apply Hx. eapply A_eps; eauto. }
+    assert (Alt : is_alt (op i) = true -> Reach p u (out i) /\ Reach p u (arg i)).
+    { intros Ha. split; intros w0 Hacc; apply Hx; [eapply A_out | eapply A_arg]; eauto. }
+    destruct (op i) eqn:Ho; simpl in *;
+      try (eapply IHfuel; [| |exact Hin]; auto; fail).
+    + destruct (Alt eq_refl) as [A1 A2]. eapply IHfuel; [| |exact Hin]; auto.
+      intros q [E|[E|E]]; subst; auto.
+    + destruct (Alt eq_refl) as [A1 A2]. eapply IHfuel; [| |exact Hin]; auto.
+      intros q [E|[E|E]]; subst; auto.
+    + eapply IHfuel; [| |exact Hin]; auto. intros q [E|E]; subst; auto.
+    + eapply IHfuel; [| |exact Hin]; auto. intros q [E|E]; subst; auto.
+    + eapply IHfuel; [| |exact Hin]; auto. intros q [E|E]; subst; auto.
+Qed.
+
+Lemma step_reach : forall p u b states, (forall pc, In pc states -> Reach p u pc) ->
+  forall pc, In pc (step_states p states b) -> Reach p (u ++ [b]) pc.
+Proof.
+  induction states as [|x r IH]; intros Hs pc Hin; simpl in Hin; [contradiction|].
+  assert (Hr : forall q, In q r -> Reach p u q) by (intros q Hq; apply Hs; right; exact Hq).
+  destruct (get p x) as [i|] eqn:Hg; [|auto].
+  destruct (is_rune (op i) && inst_matches i b) eqn:C; [|auto].
+  apply andb_true_iff in C. destruct C as [C1 C2].
+  destruct Hin as [E|E]; [|auto]. subst pc.
+  intros w Hacc. rewrite <- app_assoc. simpl. apply (Hs x); [left; reflexivity|]. eapply A_rune; eauto.
+Qed.
+
+Lemma run_reach : forall p w u states, (forall pc, In pc states -> Reach p u pc) ->
+  forall pc, In pc (run_states p states w) -> Reach p (u ++ w) pc.
+Proof.
+  induction w as [|b w IH]; intros u states Hs pc Hin; simpl in Hin.
+  - rewrite app_nil_r. auto.
+  - replace (u ++ b :: w) with ((u ++ [b]) ++ w) by (rewrite <- app_assoc; reflexivity).
+    eapply IH; [|exact Hin]. intros q Hq. eapply clos_reach; [| |exact Hq].
+    + apply step_reach. exact Hs.
+    + intros q' [].
 Qed.
 
 Lemma accepts_b_sound : forall p w, accepts_b p w = true -> accepts p w.
-Proof. intros p w H. unfold accepts_b in H. eapply acc_b_sound; eauto. Qed.
+Proof.
+  intros p w H. unfold accepts_b in H. apply existsb_exists in H. destruct H as [pc [Hin Hm]].
+  assert (R : Reach p ([] ++ w) pc).
+  { eapply run_reach; [|exact Hin]. intros q Hq. eapply clos_reach; [| |exact Hq].
+    - intros q' [E|[]]. subst. intros w0 Hacc. exact Hacc.
+    - intros q' []. }
+  unfold is_match_pc in Hm. destruct (get p pc) as [i|] eqn:Hg; [|discriminate].
+  destruct (op i) eqn:Ho; try discriminate.
+  unfold accepts. specialize (R [] (A_match p [] pc i Hg Ho)). rewrite app_nil_r in R. exact R.
+Qed.
 
 (* ------------------------------------------------------------------ statements used by props/C18.v *)
 Lemma cached_length_sound : forall p mn mx w,
